@@ -430,6 +430,59 @@ def decDecisions (j : Json) : Except String (List Decision) :=
   | .arr xs => xs.toList.mapM decDecision
   | _ => throw "decisions must be a list"
 
+def encOptDiff : Option (List Op) → Json
+  | none => .null
+  | some d => encDiff d
+
+def encPKey : PKey → Json
+  | .s k => .str k
+  | .i n => toJson n
+
+def encMD (d : Merge.MD) : Json :=
+  Json.mkObj [("path", .arr (d.path.map encPKey).toArray), ("action", .str d.action), ("conflict", .bool d.conflict),
+              ("local", encOptDiff d.localDiff), ("remote", encOptDiff d.remoteDiff), ("custom", encOptDiff d.customDiff),
+              ("similar", encOptDiff d.similarInsert)]
+
+def decStrategies (j : Json) : Except String Merge.Strategies := do
+  let tab ← match j.getObjVal? "table" with
+    | .ok (.arr xs) => xs.toList.mapM (fun kv => match kv with
+        | .arr #[.str k, .str v] => pure (k, v)
+        | _ => throw "bad strategy entry")
+    | _ => throw "strategies.table"
+  let tr ← strList (j.getObjValD "transients")
+  pure { table := tab, transients := tr }
+
+/-- render memo: [[base, local, remote, merged, status]..]; `builtin` = answer misses with the model of the built-in renderer -/
+def decRender (j : Json) (builtin : Bool) : Except String Merge.Render := do
+  let mut rm : Std.HashMap String (String × Nat) := {}
+  match j with
+  | .arr xs =>
+      for e in xs do
+        match e with
+        | .arr #[.str b, .str l, .str r, .str m, st] =>
+            rm := rm.insert (b ++ "\x00" ++ l ++ "\x00" ++ r) (m, ← jnat st)
+        | _ => throw "bad render memo"
+  | _ => pure ()
+  let rm' := rm
+  pure (fun b l r =>
+    match rm'.get? (String.ofList b ++ "\x00" ++ String.ofList l ++ "\x00" ++ String.ofList r) with
+    | some (m, st) => .ok (m.toList, st)
+    | none => if builtin then .ok (Nbdime.Render.builtinMerge l r) else .error (.oracleMiss "merge_render"))
+
+def handleMerge (req : Json) : Except String Json := do
+  let base ← decJ (req.getObjValD "base")
+  let ld ← decDiff (req.getObjValD "local")
+  let rd ← decDiff (req.getObjValD "remote")
+  let S ← decStrategies (req.getObjValD "strategies")
+  let cfg ← decCfg (req.getObjValD "cfg")
+  let O ← decOracle (req.getObjValD "memo")
+  let builtin := match req.getObjVal? "builtin" with
+    | .ok (.bool b) => b
+    | _ => false
+  let render ← decRender (req.getObjValD "render") builtin
+  let E : Merge.Env := { O := O, cfg := cfg, S := S, render := render }
+  pure (reply (Merge.decideMerge E base ld rd) (fun ds => .arr (ds.map encMD).toArray))
+
 def handle (req : Json) : Except String Json := do
   let cmd ← req.getObjValAs? String "cmd"
   match cmd with
@@ -437,6 +490,7 @@ def handle (req : Json) : Except String Json := do
       let doc ← decJ (req.getObjValD "doc")
       let d ← decDiff (req.getObjValD "diff")
       pure (reply (patch doc d) encJ)
+  | "merge" => handleMerge req
   | "gitcfg" => handleGitCfg req
   | "cfg" => handleCfg req
   | "gitfiles" => handleGitFiles req
